@@ -30,7 +30,10 @@ SPEC = {
         "atom id 4 instead because COLVARS_INPUT_ERROR is positive)",
         "Lepton, libtorch, volumetric maps, replicas, accelerated MD and name-based atom selection are absent from the "
         "engine simulator: their keywords are reached through the error path only",
-        "a hang is a child that uses 2 s and then 40 s of CPU time without ending (10^6-valued cases: 400 s, thorough tier only)",
+        "a hang is a child that uses 2 s and then 40 s of CPU time without ending",
+        "10^6 is the 'large but legitimately allocatable' value class: a case containing it that runs into the memory or "
+        "allocation cap, or does not end within 40 s (quick) / 400 s (thorough) of CPU, is counted and noted, not judged; "
+        "sizes that can never succeed (2^31, 2^63-1, 1e300) are judged",
         "UBSan's abort on the first undefined operation hides what would follow it in that case",
     ],
 }
